@@ -1312,11 +1312,24 @@ impl Mem {
                     e => Obs::Panic(format!("{:?}", e)),
                 };
                 let rbase = cont_base_in_range(&conts[ci]);
-                let form = cx().a(6);
+                let form = cx().a(8);
                 let data: Vec<u8> = (0..n).map(|i| pat(stamp, i)).collect();
                 let mut rbuf = vec![0xAAu8; n];
-                j.kind = ["region.write", "region.read", "region.write_slice", "region.read_slice", "region.write_obj", "region.read_obj"][form as usize];
+                j.kind = ["region.write", "region.read", "region.write_slice", "region.read_slice", "region.write_obj", "region.read_obj", "region.store", "region.load"][form as usize];
                 j.desc = format!("{}(len {}, region offset {})", j.kind, if form >= 4 { 8 } else { n }, addr);
+                // atomic forms: every width, at offsets around the end of the region (an access that starts
+                // inside and ends past the end must be refused and touch nothing)
+                let ati = cx().a(10) as usize;
+                let asz = ATOMIC_SIZES[ati];
+                let aaddr = if cx().a(4) != 0 { addr & !(asz - 1) } else { addr };
+                let aok = aaddr.checked_add(asz).map(|e| e <= size).unwrap_or(false) && (conts[ci].ptr as usize + aaddr) % asz == 0;
+                if form >= 6 {
+                    j.desc = format!("{}::<{}>(region offset {})", j.kind, ATOMIC_NAMES[ati], aaddr);
+                    if aaddr < size && aaddr + asz > size {
+                        cx().count("probe.region_atomic_access_straddling_the_region_end");
+                    }
+                }
+                let adata: Vec<u8> = (0..asz).map(|i| pat(stamp, i)).collect();
                 let (got, exp, wrote): (Obs, Obs, usize) = match form {
                     0 => (with_allowed(rid, &[(rbase + addr, rbase + addr + k)], || flat(catch(|| reg.write(&data, MRA(addr as u64))), |r| match r { Ok(c) => Obs::Count(c), Err(e) => gobs(e) })), if addr < size { Obs::Count(k) } else { Obs::Oob }, k),
                     1 => (with_allowed(rid, &[(rbase + addr, rbase + addr + k)], || flat(catch(|| reg.read(&mut rbuf, MRA(addr as u64))), |r| match r { Ok(c) => Obs::Count(c), Err(e) => gobs(e) })), if addr < size { Obs::Count(k) } else { Obs::Oob }, 0),
@@ -1327,12 +1340,26 @@ impl Mem {
                         let v = mk::<u64>(&(0..8).map(|i| pat(stamp, i)).collect::<Vec<u8>>());
                         (with_allowed(rid, &[(rbase + addr, rbase + addr + k8)], || flat(catch(|| reg.write_obj(v, MRA(addr as u64))), |r| match r { Ok(()) => Obs::Unit, Err(e) => gobs(e) })), if addr >= size { Obs::Oob } else if k8 < 8 { Obs::Partial(8, k8) } else { Obs::Unit }, k8)
                     }
+                    6 => (
+                        with_allowed(rid, &[(rbase + aaddr, rbase + aaddr + if aok { asz } else { 0 })], || with_atomic_type!(ati, T => flat(catch(|| reg.store::<T>(mk::<T>(&adata), MRA(aaddr as u64), Ordering::SeqCst)), |r| match r { Ok(()) => Obs::Unit, Err(e) => gobs(e) }))),
+                        if aok { Obs::Unit } else { Obs::Oob },
+                        0,
+                    ),
+                    7 => (
+                        with_allowed(rid, &[(rbase + aaddr, rbase + aaddr + if aok { asz } else { 0 })], || with_atomic_type!(ati, T => flat(catch(|| reg.load::<T>(MRA(aaddr as u64), Ordering::SeqCst)), |r| match r { Ok(v) => Obs::Bytes(bytes_of(&v)), Err(e) => gobs(e) }))),
+                        if aok { Obs::Bytes(conts[ci].model[aaddr..aaddr + asz].to_vec()) } else { Obs::Oob },
+                        0,
+                    ),
                     _ => {
                         let k8 = if addr < size { 8usize.min(size - addr) } else { 0 };
                         let want = if k8 == 8 { Obs::Bytes(conts[ci].model[addr..addr + 8].to_vec()) } else if addr >= size { Obs::Oob } else { Obs::Partial(8, k8) };
                         (with_allowed(rid, &[(rbase + addr, rbase + addr + k8)], || flat(catch(|| reg.read_obj::<u64>(MRA(addr as u64))), |r| match r { Ok(v) => Obs::Bytes(bytes_of(&v)), Err(e) => gobs(e) })), want, 0)
                     }
                 };
+                if form == 6 && aok {
+                    conts[ci].model[aaddr..aaddr + asz].copy_from_slice(&adata);
+                    note_w(ci, aaddr, aaddr + asz);
+                }
                 if wrote > 0 {
                     let src: Vec<u8> = if form == 4 { (0..8).map(|i| pat(stamp, i)).collect() } else { data.clone() };
                     conts[ci].model[addr..addr + wrote].copy_from_slice(&src[..wrote]);
